@@ -56,6 +56,10 @@ class Prop(BaseProp):
         end = text.index("#]]\n") + 4
         blk = "".join(ind + l + "\n" for l in text[:end].split("\n")[:-1])
         pre = rng.choice(["", "", "# leading comment\n", "\n\n", "#[[ bracket ]]\n", "  \n#[=[ x ]=]\n"])
+        if nbody == 0 and rng.random() < 0.3:
+            # the whole module doccomment on one line: '#[[[ @module name #]]'
+            blk = ind + "#[[[ @module" + (" " + name if name else "") + " #]]\n"
+            res.see("module_doc_shapes", "one-line")
         gap = rng.choice([" ", " ", "  ", "\t", "    ", " \t ", ""])
         blk = blk.replace("#[[[ @module", "#[[[" + gap + "@module", 1)
         res.see("module_tag_gap", repr(gap))
